@@ -285,9 +285,69 @@ def _pure_test(t) -> bool:
 _MUTATORS = frozenset("pop popitem append add remove discard update setdefault extend insert clear sort reverse send read readline readlines write writerow writerows seek close next __next__ __setitem__ __delitem__".split())
 
 
-def _effectful(t) -> bool:
-    """May evaluating the test change what a repetition of it sees (consumes an iterator, mutates a container)?"""
+_IMPURE_CACHE: dict = {}
+
+
+def _impure_names(model) -> frozenset:
+    """Names of package functions / methods whose body stores into an attribute or item, deletes, declares
+    globals or calls a mutator method: calling one of them twice need not give the same answer."""
+    key = id(model)
+    if key not in _IMPURE_CACHE:
+        out = set()
+
+        def root(x):
+            while isinstance(x, (ast.Attribute, ast.Subscript, ast.Call)):
+                x = x.func if isinstance(x, ast.Call) else x.value
+            return x.id if isinstance(x, ast.Name) else None
+
+        for fn in model.functions.values():
+            a = fn.node.args
+            outside = {q.arg for q in a.posonlyargs + a.args + a.kwonlyargs} | {q.arg for q in (a.vararg, a.kwarg) if q is not None}
+            local = {n.id for n in ast.walk(fn.node) if isinstance(n, ast.Name) and isinstance(n.ctx, ast.Store)} - outside
+            for n in ast.walk(fn.node):
+                hit = False
+                if isinstance(n, (ast.Assign, ast.AugAssign, ast.AnnAssign)):
+                    tg = n.targets if isinstance(n, ast.Assign) else [n.target]
+                    for t_ in tg:
+                        for x in ast.walk(t_):
+                            if isinstance(x, (ast.Attribute, ast.Subscript)) and isinstance(getattr(x, "ctx", None), ast.Store) and root(x) not in local:
+                                hit = True
+                elif isinstance(n, ast.Delete):
+                    hit = any(isinstance(x, (ast.Attribute, ast.Subscript)) and root(x) not in local for x in n.targets)
+                elif isinstance(n, (ast.Global, ast.Nonlocal, ast.Yield, ast.YieldFrom)):
+                    hit = True
+                elif isinstance(n, ast.Call) and isinstance(n.func, ast.Attribute) and n.func.attr in _MUTATORS and root(n.func.value) not in local:
+                    hit = True
+                if hit:
+                    out.add(fn.name)
+                    break
+        # callers of an impure function are impure (by name, to a fixed point)
+        calls = {}
+        for fn in model.functions.values():
+            names = set()
+            for n in ast.walk(fn.node):
+                if isinstance(n, ast.Call):
+                    f = n.func
+                    names.add(f.id if isinstance(f, ast.Name) else f.attr if isinstance(f, ast.Attribute) else None)
+            calls.setdefault(fn.name, set()).update(names - {None, "__init__"})
+        changed = True
+        while changed:
+            changed = False
+            for name, cs in calls.items():
+                if name not in out and cs & (out - {"__init__"}):
+                    out.add(name)
+                    changed = True
+        _IMPURE_CACHE.clear()
+        _IMPURE_CACHE[key] = frozenset(out)
+    return _IMPURE_CACHE[key]
+
+
+def _effectful(t, model=None) -> bool:
+    """May evaluating the test change what a repetition of it sees (consumes an iterator, mutates a container,
+    calls a package function that writes state)?"""
     from .terms import callee_name
+
+    impure = _impure_names(model) if model is not None else frozenset()
 
     def bad(x):
         if op(x) in ("yield", "await", "yieldfrom"):
@@ -295,7 +355,8 @@ def _effectful(t) -> bool:
         if op(x) == "call":
             if x[1] == ("builtin", "next"):
                 return True
-            return callee_name(x) in _MUTATORS
+            name = callee_name(x)
+            return name in _MUTATORS or name in impure
         return False
 
     return contains(t, bad)
@@ -1161,13 +1222,13 @@ class _Builder:
             for ev in p.events:
                 if ev.kind == "guard" and ev.a == test:
                     return then_fn([p]) if ev.b == pol else else_fn([p])
-        elif not _effectful(test):
+        elif not _effectful(test, self.model):
             # the same test repeated with nothing but tests (and call-free bindings) in between
             for ev in reversed(p.events):
                 if ev.kind == "guard":
                     if ev.a == test:
                         return then_fn([p]) if ev.b == pol else else_fn([p])
-                    if _effectful(ev.a):
+                    if _effectful(ev.a, self.model):
                         break
                 elif ev.kind == "bind" and isinstance(ev.b, tuple) and not contains(ev.b, lambda x: op(x) in ("call", "bound", "yield", "await")):
                     continue
